@@ -40,10 +40,11 @@ class Report:
         self.explanation = ""
         self.floors = []         # (rule, found, floor)
         self.extra = {}
+        self.rule_suffix = ""    # set while the rules run on the facts of the second build profile
 
     # ---- recording -------------------------------------------------------------------------
     def ob(self, rule, instance, ok, detail="", where="", nontrivial=True):
-        self.obs.append((rule, str(instance), bool(ok), detail, where, nontrivial))
+        self.obs.append((rule + self.rule_suffix, str(instance), bool(ok), detail, where, nontrivial))
         return bool(ok)
 
     def fail(self, rule, instance, detail, where=""):
@@ -54,7 +55,7 @@ class Report:
 
     def floor(self, rule, found, floor):
         """Fail closed when a rule matched fewer instances than were confirmed by hand on the pinned tree."""
-        self.floors.append((rule, found, floor))
+        self.floors.append((rule + self.rule_suffix, found, floor))
         if found < floor:
             self.ob(rule, "instance-floor", False, "rule matched %d instances, floor is %d (anchor missing?)" % (found, floor))
 
@@ -67,7 +68,7 @@ class Report:
 
     def note(self, x):
         if len(self.notes) < 40:
-            self.notes.append(x)
+            self.notes.append(x + self.rule_suffix)
 
     def fn(self, *keys):
         for k in keys:
